@@ -393,61 +393,94 @@ func (w *LB) runWRR() {
 	}
 	c.UpdateHosts(set)
 	lb := c.Snapshot().LoadBalancer()
-	picks := 50 + ch.Pick("work", "npicks", 400)
 	ctx := &lbCtx{context.Background()}
-	var idx []int
 	addrIdx := map[string]int{}
 	for i, h := range hs {
 		addrIdx[h.AddressString()] = i
 	}
-	for i := 0; i < picks; i++ {
-		h := lb.ChooseHost(ctx)
-		if h == nil {
-			s.Violate("C05", "no_host_despite_healthy:LB_WEIGHTED_ROUNDROBIN", "WRR returned no host although %s is healthy", hs[0].AddressString())
-			return
-		}
-		a := h.AddressString()
-		if unhealthy[a] {
-			s.Violate("C05", "unhealthy_host_returned:LB_WEIGHTED_ROUNDROBIN", "WRR returned unhealthy host %s", a)
-			return
-		}
-		w.Picks = append(w.Picks, a)
-		idx = append(idx, addrIdx[a])
+	// the pick history runs in 1-3 phases; between two phases some hosts fail or pass
+	// their health check (the balancer is not rebuilt by a health change). Windows are
+	// judged inside one phase, over the hosts that are healthy in that phase.
+	phases := 1
+	if ch.Chance("work", "flap", 1, 3) {
+		phases = 2 + ch.Pick("work", "nphases", 2)
 	}
-	// prefix counts
-	pre := make([][]int, len(idx)+1)
-	pre[0] = make([]int, n)
-	for i, k := range idx {
-		row := append([]int(nil), pre[i]...)
-		row[k]++
-		pre[i+1] = row
-	}
-	var healthy []int
-	for i, h := range hs {
-		if !unhealthy[h.AddressString()] {
-			healthy = append(healthy, i)
+	total := 0
+	for ph := 0; ph < phases; ph++ {
+		if ph > 0 {
+			for _, h := range hs[1:] {
+				if ch.Chance("work", "flip", 1, 2) {
+					a := h.AddressString()
+					if unhealthy[a] {
+						h.ClearHealthFlag(api.FAILED_ACTIVE_HC)
+						delete(unhealthy, a)
+					} else {
+						h.SetHealthFlag(api.FAILED_ACTIVE_HC)
+						unhealthy[a] = true
+					}
+				}
+			}
+			s.SigAdd(fmt.Sprint("flap", len(unhealthy)))
 		}
-	}
-	for a := 0; a < len(idx); a++ {
-		for b := a + 1; b <= len(idx); b++ {
-			for x := 0; x < len(healthy); x++ {
-				for y := x + 1; y < len(healthy); y++ {
-					i, j := healthy[x], healthy[y]
-					wi, wj := float64(hs[i].Weight()), float64(hs[j].Weight())
-					ni, nj := float64(pre[b][i]-pre[a][i]), float64(pre[b][j]-pre[a][j])
-					if math.Abs(ni/wi-nj/wj) > 1/wi+1/wj+1e-9 {
-						cls := "wrr_lag"
-						if len(unhealthy) > 0 {
-							cls = "wrr_lag_some_hosts_unhealthy"
+		picks := 50 + ch.Pick("work", "npicks", 400)
+		if phases > 1 {
+			picks = 20 + ch.Pick("work", "npicksflap", 200)
+		}
+		var idx []int
+		for i := 0; i < picks; i++ {
+			h := lb.ChooseHost(ctx)
+			if h == nil {
+				s.Violate("C05", "no_host_despite_healthy:LB_WEIGHTED_ROUNDROBIN", "WRR returned no host although %s is healthy", hs[0].AddressString())
+				return
+			}
+			a := h.AddressString()
+			if unhealthy[a] {
+				s.Violate("C05", "unhealthy_host_returned:LB_WEIGHTED_ROUNDROBIN", "WRR returned unhealthy host %s", a)
+				return
+			}
+			w.Picks = append(w.Picks, a)
+			idx = append(idx, addrIdx[a])
+		}
+		total += len(idx)
+		// prefix counts
+		pre := make([][]int, len(idx)+1)
+		pre[0] = make([]int, n)
+		for i, k := range idx {
+			row := append([]int(nil), pre[i]...)
+			row[k]++
+			pre[i+1] = row
+		}
+		var healthy []int
+		for i, h := range hs {
+			if !unhealthy[h.AddressString()] {
+				healthy = append(healthy, i)
+			}
+		}
+		for a := 0; a < len(idx); a++ {
+			for b := a + 1; b <= len(idx); b++ {
+				for x := 0; x < len(healthy); x++ {
+					for y := x + 1; y < len(healthy); y++ {
+						i, j := healthy[x], healthy[y]
+						wi, wj := float64(hs[i].Weight()), float64(hs[j].Weight())
+						ni, nj := float64(pre[b][i]-pre[a][i]), float64(pre[b][j]-pre[a][j])
+						if math.Abs(ni/wi-nj/wj) > 1/wi+1/wj+1e-9 {
+							cls := "wrr_lag"
+							if len(unhealthy) > 0 {
+								cls = "wrr_lag_some_hosts_unhealthy"
+							}
+							if ph > 0 && len(unhealthy) == 0 {
+								cls = "wrr_lag_after_health_change"
+							}
+							s.Violate("C06", cls, "phase %d, window [%d,%d) of %d picks: host %d (w=%v) picked %v times, host %d (w=%v) picked %v times: |n_i/w_i-n_j/w_j|=%.4f > %.4f (weights %v, unhealthy in this phase %v)",
+								ph, a, b, len(idx), i, wi, ni, j, wj, nj, math.Abs(ni/wi-nj/wj), 1/wi+1/wj, w.Wts, unhealthy)
+							return
 						}
-						s.Violate("C06", cls, "window [%d,%d) of %d picks: host %d (w=%v) picked %v times, host %d (w=%v) picked %v times: |n_i/w_i-n_j/w_j|=%.4f > %.4f (weights %v, unhealthy %v)",
-							a, b, len(idx), i, wi, ni, j, wj, nj, math.Abs(ni/wi-nj/wj), 1/wi+1/wj, w.Wts, unhealthy)
-						return
 					}
 				}
 			}
 		}
 	}
+	idx := make([]int, total)
 	w.Stats["picks"] = len(idx)
 	var sig []uint32
 	for _, h := range hs {
